@@ -202,19 +202,6 @@ func vPut(kind cache.EntryKind, mode casblob.CompressionType, maxN int, maxChunk
 	}
 }
 
-// files the backend stub still holds open
-func (d *vDisk) pxOpen() []int {
-	var r []int
-	if d.px != nil {
-		for i, p := range d.px.puts {
-			if p.rc != nil {
-				r = append(r, i)
-			}
-		}
-	}
-	return r
-}
-
 func VerifPutCasZstd()        { vPut(cache.CAS, casblob.Zstandard, 1, 2, false) }
 func VerifPutCasZstdProxy()   { vPut(cache.CAS, casblob.Zstandard, 2, 2, true) }
 func VerifPutCasRaw()         { vPut(cache.CAS, casblob.Identity, 1, 2, false) }
